@@ -270,6 +270,12 @@ func (x *Exec) monitorAcquire(fr *Frame, st *State, trail []string, pos token.Po
 	}
 	u.Trust(fmt.Sprintf("monitor rule for %s: fields it protects are only accessed under the lock (race freedom assumed)", m.Lock))
 	env := x.envFor(x.topFrame, st, x.topFrame.entry)
+	// other threads may have allocated meanwhile
+	na := u.Fresh("alloc", SInt)
+	u.Assume(Ge(na, st.Alloc))
+	st.Alloc = na
+	u.havocAlloc = na
+	defer func() { u.havocAlloc = Term{} }()
 	// havoc protected locations
 	for _, p := range m.Protects {
 		if err := x.havocItem(env, st, p); err != nil {
